@@ -188,6 +188,21 @@ theorem snapshot_roundtrip (g : Graph) (hwf : ∀ x ∈ g.snapshotAddrs, WFAddr 
   rw [h1, mem_akeys_loadAddrs]
   simp [akeys]
 
+/-- "The introducer offers the service" is decided from the services the introducer ADVERTISED, whether or not the
+    introducer is (still, or ever was) a verified peer: after any history, an address whose introducer `k` advertised `sv`
+    is walkable for `sv` as soon as no verified peer of that service uses it and the old-style restriction does not exclude
+    it — there is no hypothesis `k ∈ keys`.  (An address handed out by a bootstrap server or by a blacklisted identity
+    stays reachable for the services that identity announced.) -/
+theorem introducer_services_count (a b c : Nat) (ops : List Op) (x : Addr) (w : WAddr) (k : Key) (sv : Svc) (old : Bool) :
+    let s := run (init a b c) ops
+    sv ≠ 0 → (x, w) ∈ s.g.allAddr → w.intro = some k → sv ∈ s.g.servicesOf k →
+    ¬(old = true ∧ w.newStyle = true) → (∀ p ∈ s.g.verified, sv ∈ s.g.servicesOf p.key → x ∉ p.addrList) →
+    x ∈ (s.walkable (some sv) old).1 := by
+  intro s hsv hmem hintro hserv hold hfree
+  have hw := (walkable_ok (cache_coherent a b c ops) (some sv) old).2
+  rw [truthy_some hsv] at hw
+  exact (hw x).2 ⟨hfree, w, hmem, hold, Or.inl ⟨k, hintro, hserv⟩⟩
+
 /-- The other side of the snapshot clause, stated so that the reading chosen above is explicit: for every (non-empty)
     service id the addresses a snapshot load brought in are NOT returned by `get_walkable_addresses(service_id)` — whatever
     bytes were loaded.  load_snapshot stores `WalkableAddress(b"", None, False)`, i.e. no introducer and no service, and
@@ -338,9 +353,9 @@ example : p0 ∈ (run (init 2 2 2) [.add p0, .qKey 0]).g.verified ∧ a1 ∈ p0.
     (step (run (init 2 2 2) ([.add p0, .qKey 0] ++ [.rmAddr a1] ++ [.qAddr a1 none])) (.add p0')).getByKey 0 = some p0' := by
   decide
 
-/-- MIRRORED QUIRK, judged in design.d (not a clause the theorems establish either way): an identity that was never
-    verified (here: its mid is blacklisted) still lends its advertised services to the addresses it introduced, so
-    `get_walkable_addresses(service)` can be non-empty while no peer is verified at all.  `AnsWalk` follows the code here. -/
+/-- `introducer_services_count` at work: an identity that was never verified (here: its mid is blacklisted) still lends its
+    advertised services to the addresses it introduced, so `get_walkable_addresses(service)` is non-empty although no peer
+    is verified at all (judged the intended meaning, design.d/C12.md) -/
 example : let s := run (init 2 2 2) [.blMid 0, .svcs p0 [7], .disc p0 a3 none false]
     s.g.verified = [] ∧ (s.walkable (some 7) false).1 = [a3] := by decide
 
